@@ -117,6 +117,26 @@ def run_limit(acc, accept):
         acc.outcome("refused")
     except MemoryError:
         acc.viol("indexing:oversize-space-not-refused", dict(layer="limit", size=ms + 1), expected="ValueError")
+    # every size beyond the limit, not only the first one (word-size boundaries of the index arithmetic included)
+    for size in (ms + 2, 31, 32, 33, 62, 63, 64, 65, 100, 128, 1000):
+        acc.ev(1)
+        try:
+            r = st.generate_hilbert_space(size)
+            acc.viol("indexing:oversize-space-not-refused", dict(layer="limit", size=size), observed=list(r.shape), expected="ValueError")
+            del r
+        except ValueError:
+            acc.outcome(f"refused:{size}")
+        except (MemoryError, OverflowError, RuntimeError) as e:
+            acc.viol("indexing:oversize-space-not-refused", dict(layer="limit", size=size), observed=type(e).__name__, expected="ValueError")
+    for nv in (63, 64, 100):
+        acc.ev(1)
+        try:
+            r = lib().PositiveWaveFunction(nv, 1, gpu=False).generate_hilbert_space()
+            acc.viol("indexing:oversize-space-not-refused:default-size", dict(layer="limit", num_visible=nv), observed=list(r.shape), expected="ValueError")
+        except ValueError:
+            acc.outcome(f"refused:model{nv}")
+        except (MemoryError, OverflowError, RuntimeError) as e:
+            acc.viol("indexing:oversize-space-not-refused:default-size", dict(layer="limit", num_visible=nv), observed=type(e).__name__, expected="ValueError")
     # the limit applies to the EFFECTIVE size: a model with more visible units than the limit asked for its
     # own space (size omitted / None / 0 = "use num_visible") is refused just like an explicit oversize request
     L = lib()
